@@ -195,6 +195,16 @@ fn check(args: &[String]) -> i32 {
             }
             return 2;
         }
+        if !r.hung_runs.is_empty() {
+            if r.violations.is_empty() {
+                for e in r.hung_runs.iter().take(5) {
+                    eprintln!("HARNESS-ERROR: {e}");
+                }
+                eprintln!("HARNESS-ERROR: {} run(s) hung and no other run showed a divergence: no verdict", r.hung_runs.len());
+                return 2;
+            }
+            println!("sessim: note: {} run(s) hung (epoch process killed by the watchdog) and gave no verdict; a divergence was found in another run", r.hung_runs.len());
+        }
         println!(
             "sessim: {} runs, {} epochs (processes), {} invocations, {} crashed by injection, {:.1}s ({:.0} runs/s)",
             r.stats.runs, r.stats.epochs, r.stats.jobs, r.stats.jobs_crashed, r.wall_s, r.stats.runs as f64 / r.wall_s.max(1e-9)
